@@ -1,7 +1,7 @@
 import GlueVerif.Model.DataStruct
 /-!
 Helper lemmas for C17, part 1: the state invariant `Inv` is established by `init`, implies `specInv`
-of every observation, and is preserved by every call inside the hypothesis `classify = ok`.
+of every observation; elementary preservation lemmas.
 -/
 namespace GlueVerif.Lemmas.C17
 open GlueVerif.DataStruct
